@@ -66,14 +66,21 @@ def _ask_again(job):
     if z3bin:
         cmds.append(('z3', [z3bin, f'-T:{3 * timeout_s}', path]))
     said = []
+    gave_up = False
     try:
         for name, cmd in cmds:
+            t_start = time.time()
             try:
                 out = subprocess.run(cmd, capture_output=True, text=True, timeout=3 * timeout_s + 10)
                 ans = out.stdout.strip().split('\n')[0] if out.stdout else ''
             except Exception:
                 ans = 'timeout'
-            said.append(f'{name}: {ans or "no answer"}')
+            took = time.time() - t_start
+            said.append(f'{name}: {ans or "no answer"} ({took:.0f}s)')
+            if name == 'z3' and ans == 'unknown' and took < 1.5 * timeout_s:
+                # z3 stopped by itself well inside its budget (3 x timeout_s): it gave up on the quantifiers
+                # of a candidate counter-model, it did not run out of time
+                gave_up = True
             if ans == 'unsat':
                 return name, said
             if ans == 'sat' and name == 'z3' and 'pymul' not in text:
@@ -81,7 +88,7 @@ def _ask_again(job):
                 # a counterexample exists (z3 certifies its models), but a fresh process gives us no
                 # way to read it back into the replay: reported as refuted without an input
                 return 'SAT', said
-        return '', said
+        return ('GAVEUP' if gave_up and 'pymul' not in text else ''), said
     finally:
         os.unlink(path)
 
@@ -111,6 +118,9 @@ def cvc5_second_opinion(results, timeout_s=20, jobs=8):
             i += len(texts)
             if 'SAT' in got:
                 o['second_sat'] = True
+            elif 'GAVEUP' in got:
+                # some open path: neither proved nor refuted, and not for lack of time
+                o['second_gave_up'] = True
             elif all(got):
                 o['verdict'] = 'proved'
                 o['backend'] = 'cvc5' if 'cvc5' in got else 'z3'
@@ -332,7 +342,7 @@ def run_property(pid, tier='quick', seed=0, jobs=16, verbose=False):
                                                         detail=rs.get('detail', '')) for d, rs in fails[:20]]),
                               open(rp, 'w'), indent=1, default=str)
                     violations.append((n, rp, False))
-                elif n in baseline and (o.get('second_sat') or (
+                elif n in baseline and (o.get('second_sat') or o.get('second_gave_up') or (
                         o.get('reasons') and all(_gave_up(x) for x in o['reasons']))):
                     # The obligation was discharged on the unchanged tree (contracts/baseline/<id>.json)
                     # and now the solver gives up for a reason that is not a time limit (its
